@@ -222,30 +222,6 @@ reader2_harness!(c07_two_n10_c100_l4_l9_i1, 10, 100, 4, 9, 1);
 reader2_harness!(c07_two_n7_c2_l5, 7, 2, 5, 0, 2);
 reader2_harness!(c07_two_n9_c4_l5_l2, 9, 4, 5, 2, 99);
 
-/// read_message == dlt_message of the piece (non-verbose message without extended header,
-/// concrete header bytes, symbolic payload)
-#[kani::proof]
-#[kani::stub(alloc::fmt::format, fmt_stub)]
-#[kani::unwind(20)]
-fn c07_read_message_case() {
-    let p: [u8; 6] = kani::any();
-    let data: [u8; 10] = [0x20, 1, 0, 8, p[0], p[1], p[2], p[3], p[4], p[5]];
-    let src = Src::<10, 3> { data, len: 10, pos: 0, intr_at: 1, calls: 0 };
-    let mut reader = DltMessageReader::with_capacity(16, 16, src, false);
-    match read_message(&mut reader, None) {
-        Ok(Some(ParsedMessage::Item(m))) => {
-            assert!(m.header.payload_length == 4 && m.header.message_counter == 1);
-            match &m.payload {
-                crate::dlt::PayloadContent::NonVerbose(id, d) => {
-                    assert!(*id == u32::from_le_bytes([p[0], p[1], p[2], p[3]]) && d.len() == 0);
-                }
-                _ => { assert!(false); }
-            }
-        }
-        _ => { assert!(false); }
-    }
-}
-
 /// with storage header: the 16 storage bytes are part of the delivered slice and the length
 /// field is read behind them
 pub fn reader_case_storage<const N: usize, const C: usize>(l1: u16, intr_at: usize) {
